@@ -47,6 +47,7 @@ fn main() {
         "alloc-probe" => alloc::run_probe(seed, cases, &mut sink),
         "alloc-lookup" => alloc::run_lookup(seed, cases, &mut sink),
         "bitops" => bitops::run(seed, cases, &mut sink),
+        "bitops-node" => bitops::run_nodes(seed, cases, &mut sink),
         "core-pp" => core_pp::run(seed, cases, &mut sink),
         "core-mp" => core_mp::run(seed, cases, &mut sink),
         "core-mp-corpus" => {
